@@ -4,6 +4,7 @@ import (
 	"fmt"
 	"strings"
 
+	"verif/gen"
 	"verif/sim/cisco"
 
 	"verif/sim/tape"
@@ -12,7 +13,19 @@ import (
 // ciscoPlan is the shared plan-mode run for C01, C02, C07, C08 and C14.
 func ciscoPlan(kind, prop string) RunFunc {
 	return func(c *Ctx, tp *tape.Tape, _ map[string]any) *Failure {
-		cs := GenCiscoCase(tp, kind)
+		var adjust func(*gen.Knobs)
+		mode := ""
+		if prop == "C14" {
+			// Two workloads: Netspoc-shaped ACLs (deny block, permits, final
+			// deny), and arbitrary mixes of permit and deny.
+			if tp.Next(4) != 0 {
+				mode = "shaped|"
+				adjust = func(k *gen.Knobs) { k.Shaped, k.NoShare, k.Independent, k.Remarks = true, true, false, false }
+			} else {
+				mode = "mix|"
+			}
+		}
+		cs := GenCiscoCaseK(tp, kind, adjust)
 		dev := printDevice(cs)
 		p := c.PlanCompare(kind, dev, cs.Files)
 		if p.Panic != "" {
@@ -71,7 +84,7 @@ func ciscoPlan(kind, prop string) RunFunc {
 				return nil
 			}
 			if o.StepKey != "" {
-				return fail(o.StepKey, o.Step)
+				return fail(mode+o.StepKey, o.Step)
 			}
 		default: // C01, C02
 			if len(o.Rejects) > 0 {
